@@ -1,5 +1,6 @@
 import Driver.ProgJson
 import Heph.Model.TransKotlin
+import Heph.Spec.TransKotlinSem
 /-! ops of the Kotlin translator model:
  * `trans.kotlin` `{program: <export>, package: str|null, history?: [<export>…]}` → text of `program`
    printed by a translator object that has already translated the programs of `history`
@@ -7,7 +8,9 @@ import Heph.Model.TransKotlin
  * `trans.kotlin.inventory` `{program}` → `[[tag, name]…]`, the declaration inventory computed from the IR
  * `trans.kotlin.visit` `{program, ident?, is_unit?, is_lambda?, _cast_integers?}` → texts of the top-level
    declarations visited in turn from that state, and the state afterwards
- * `trans.kotlin.state` (same request as `trans.kotlin`) → the state after translating history and program -/
+ * `trans.kotlin.state` (same request as `trans.kotlin`) → the state after translating history and program
+ * `trans.kotlin.sem` `{program}` → `{"pieces": [[tag, name|null, text]…], "condok": bool}`: the non-layout pieces the
+   program calls for (`semProgram`, IR only) and the hypothesis `condOK` of the text-level theorems -/
 open Lean Heph Heph.TransKotlin
 namespace Driver.TransKotlin
 
@@ -83,6 +86,10 @@ def handle : Handler := fun op j =>
   | "trans.kotlin.inventory" => some (do
       let p ← getProgram j
       pure (res (Json.arr ((inventory p).toArray.map fun t => Json.arr (tagJson t).toArray))))
+  | "trans.kotlin.sem" => some (do
+      let p ← getProgram j
+      pure (res (Json.mkObj [("pieces", Json.arr ((semProgram p).toArray.map pieceJson)),
+                             ("condok", Json.bool (condOK p))])))
   | "trans.kotlin.issam" => some (do
       let p ← getProgram j
       let cs := programClasses p
